@@ -120,6 +120,11 @@ theorem setCachedExpression_code_eq_lsteps (key : Str → Str) (MAX CLEAR fuel :
 
 /-! ### non-vacuity: concrete runs of the dump through the interpreter (kernel evaluation), off the trivial paths -/
 
+-- A failing `decide +kernel` explains itself by re-evaluating the proposition with the elaborator, which is very slow on
+-- runs of the interpreter (minutes, gigabytes): the small budget makes a broken example fail at once.  The kernel check of
+-- a correct example does not consume it.
+set_option maxHeartbeats 2000
+
 private def st : State Str PyV :=
   ⟨[("a".toList, .opaque "A"), ("b".toList, .opaque "B")], ["a".toList, "b".toList, "a".toList]⟩
 
